@@ -1,9 +1,290 @@
-//! C03 — not implemented yet.
-use crate::util::{Args, Out};
-use serde_json::{Value, json};
+//! C03 — programs the type checker accepts compile on both back ends and run
+//! without panics, aborts, hangs or out-of-bounds accesses; dsp yields the declared
+//! number of words. Oracle: process outcome + hook bounds assertions (+ sanitizers in
+//! the thorough tier, see tools/).
 
-pub fn meta(_args: &Args) -> Value {
-    json!({"level": "exploration", "rule": "not implemented", "floor": {"quick": 1000000, "thorough": 1000000}})
+use super::c01::corpus_files;
+use super::progcase::{Case, gen_case, input_fn, norm, report};
+use super::{drive, replay_one};
+use crate::run::{Backend, BuildError, Session};
+use crate::util::{Args, Out, Rng};
+use serde_json::{Value, json};
+use std::path::PathBuf;
+
+pub struct Checked {
+    pub violations: Vec<(String, String)>,
+    pub accepted: Vec<&'static str>,
+    pub rejected: bool,
+    pub dsp_calls: usize,
+    pub steps: u64,
+    pub state_ops: u64,
 }
-pub fn run(_args: &Args, _out: &mut Out) {}
-pub fn replay(_args: &Args, _out: &mut Out, _case: &Value) {}
+
+pub fn check(c: &Case) -> Checked {
+    let mut res = Checked { violations: vec![], accepted: vec![], rejected: false, dsp_calls: 0, steps: 0, state_ops: 0 };
+    let inp = input_fn(c.input_seed, c.finite_inputs);
+    let path = c.path.as_ref().map(PathBuf::from);
+    let mut vm_accepts = false;
+    for b in [Backend::Vm, Backend::Wasm] {
+        let steps0 = mimium_lang::verif::total_steps();
+        let ops0 = mimium_lang::verif::state_event_count();
+        let _ = mimium_lang::verif::take_misc_events();
+        match Session::build(b, &c.src, c.scheduler, path.clone()) {
+            Ok(mut s) => {
+                res.accepted.push(b.name());
+                if b == Backend::Vm {
+                    vm_accepts = true;
+                }
+                let ich = s.io.input as usize;
+                let och = s.io.output as usize;
+                let mut inbuf = vec![0.0; ich];
+                for t in 0..c.n {
+                    for (k, v) in inbuf.iter_mut().enumerate() {
+                        *v = inp(t, k);
+                    }
+                    match s.step(&inbuf) {
+                        Ok(st) => {
+                            res.dsp_calls += 1;
+                            if b == Backend::Vm && st.rc != och as i64 {
+                                res.violations.push((
+                                    "dsp-word-count/vm".into(),
+                                    format!("sample {t}: dsp returned {} words, its type declares {och}", st.rc),
+                                ));
+                                break;
+                            }
+                            if b == Backend::Wasm && st.rc < 0 {
+                                res.violations.push(("dsp-trap/wasm".into(), format!("sample {t}: run_dsp returned {}", st.rc)));
+                                break;
+                            }
+                            if st.out.len() != och {
+                                res.violations.push((
+                                    format!("dsp-word-count/{}", b.name()),
+                                    format!("sample {t}: {} output words, declared {och}", st.out.len()),
+                                ));
+                                break;
+                            }
+                        }
+                        Err(p) => {
+                            let tag = p.is_verif_tag().unwrap_or("");
+                            let sig = match tag {
+                                "VERIF-STEPS" => format!("hang-step-budget/dsp/{}", b.name()),
+                                _ => format!("{}/dsp/{}", p.sig(), b.name()),
+                            };
+                            res.violations.push((sig, format!("at sample {t}: {} @ {}", p.msg, p.loc)));
+                            break;
+                        }
+                    }
+                }
+            }
+            Err(BuildError::Rejected(d)) => {
+                if b == Backend::Wasm && vm_accepts {
+                    res.violations.push((
+                        format!("type-checked-program-refused-by-wasm-codegen: {}", d.first().map(|d| norm(&d.message)).unwrap_or_default()),
+                        d.first().map(|d| d.message.clone()).unwrap_or_default(),
+                    ));
+                } else {
+                    res.rejected = true;
+                }
+            }
+            Err(BuildError::NoDsp) => {
+                res.rejected = true;
+            }
+            Err(BuildError::BackendRefused(m)) => {
+                res.violations.push((format!("backend-refused/{}: {}", b.name(), norm(&m)), m));
+            }
+            Err(BuildError::Panicked(ph, p)) => {
+                let sig = match p.is_verif_tag() {
+                    Some("VERIF-STEPS") => format!("hang-step-budget/{ph}/{}", b.name()),
+                    _ => format!("{}/{ph}/{}", p.sig(), b.name()),
+                };
+                res.violations.push((sig, format!("{} @ {}", p.msg, p.loc)));
+            }
+        }
+        // violations recorded by hooks that did not panic (WASM host side records only)
+        for ev in mimium_lang::verif::take_misc_events() {
+            if let mimium_lang::verif::MiscEvent::Violation(m) = ev {
+                let sig = format!("hook-bounds/{}: {}", b.name(), norm(&m));
+                if !res.violations.iter().any(|v| v.1.contains(&m)) {
+                    res.violations.push((sig, m));
+                }
+            }
+        }
+        res.steps += mimium_lang::verif::total_steps() - steps0;
+        res.state_ops += mimium_lang::verif::state_event_count() - ops0;
+    }
+    // a program refused identically by both is fine; keep only one entry per signature
+    res.violations.dedup_by(|a, b| a.0 == b.0);
+    res
+}
+
+fn exec(c: &Case, idx: usize, out: &mut Out) -> bool {
+    let r = check(c);
+    for f in c.prog.iter().flat_map(|p| p.features.iter()) {
+        out.count(&format!("feature:{f}"), 1);
+    }
+    let origin = c.origin.as_deref().unwrap_or("generated");
+    out.count(&format!("origin:{}", origin.split(':').next().unwrap_or("")), 1);
+    for b in &r.accepted {
+        out.count(&format!("accepted:{b}"), 1);
+    }
+    if r.rejected {
+        out.count("rejected_with_diagnostics", 1);
+    }
+    out.count("dsp_calls", r.dsp_calls as u64);
+    out.count("vm_instructions_executed", r.steps);
+    out.count("state_accesses_bounds_checked", r.state_ops);
+    report(out, idx, c, &r.violations, &|t| check(t).violations);
+    !r.accepted.is_empty() && r.dsp_calls > 0
+}
+
+/// Near-miss text mutations: change the type of something and see whether the checker
+/// still accepts (most are rejected with a diagnostic, which is fine).
+pub fn near_miss(src: &str, rng: &mut Rng) -> String {
+    let mut s = src.to_string();
+    let find_all = |s: &str, pat: &str| -> Vec<usize> { s.match_indices(pat).map(|m| m.0).collect() };
+    for _ in 0..(1 + rng.below(2)) {
+        match rng.below(7) {
+            0 => {
+                let at = find_all(&s, "float");
+                if !at.is_empty() {
+                    let i = *rng.pick(&at);
+                    let r = *rng.pick(&["string", "int", "(float,float)", "[float]", "{a:float}", "(float)->float"]);
+                    s.replace_range(i..i + 5, r);
+                }
+            }
+            1 => {
+                // a numeric literal becomes something else
+                let b = s.as_bytes();
+                let digits: Vec<usize> = (1..b.len())
+                    .filter(|&i| b[i].is_ascii_digit() && !b[i - 1].is_ascii_alphanumeric() && b[i - 1] != b'.' && b[i - 1] != b'_')
+                    .collect();
+                if !digits.is_empty() {
+                    let i = *rng.pick(&digits);
+                    let mut j = i;
+                    while j < b.len() && (b[j].is_ascii_digit() || b[j] == b'.') {
+                        j += 1;
+                    }
+                    let r = *rng.pick(&["\"s\"", "(1.0,2.0)", "[1.0,2.0]", "self", "{a = 1.0}", "(|x| x)", "now", "[]"]);
+                    s.replace_range(i..j, r);
+                }
+            }
+            2 => {
+                // drop the last argument of some call
+                let at = find_all(&s, ", ");
+                if !at.is_empty() {
+                    let i = *rng.pick(&at);
+                    if let Some(end) = s[i..].find(')') {
+                        s.replace_range(i..i + end, "");
+                    }
+                }
+            }
+            3 => {
+                let at = find_all(&s, "self");
+                if !at.is_empty() {
+                    let i = *rng.pick(&at);
+                    s.replace_range(i..i + 4, *rng.pick(&["(self, self)", "mem(self)", "[self]", "self.0"]));
+                }
+            }
+            4 => {
+                // return type annotation on some function
+                let at = find_all(&s, "){");
+                if !at.is_empty() {
+                    let i = *rng.pick(&at);
+                    let r = *rng.pick(&[")->string{", ")->(float,float){", ")->[float]{", ")->float{", ")->int{"]);
+                    s.replace_range(i..i + 2, r);
+                }
+            }
+            5 => {
+                let at = find_all(&s, "mem(");
+                if !at.is_empty() {
+                    let i = *rng.pick(&at);
+                    s.replace_range(i..i + 4, *rng.pick(&["mem((1.0, 2.0), ", "delay(0.0, 1.0, ", "delay(1.0, "]));
+                }
+            }
+            _ => {
+                let at = find_all(&s, " + ");
+                if !at.is_empty() {
+                    let i = *rng.pick(&at);
+                    s.replace_range(i..i + 3, *rng.pick(&[" @ ", " |> ", " == ", " / 0 + "]));
+                }
+            }
+        }
+    }
+    s
+}
+
+pub fn meta(args: &Args) -> Value {
+    json!({
+        "level": "exploration",
+        "rule": "cases: (a) generated well-typed programs with the danger features on (state in branches unless quarantined, >256 locals, deep stateful call trees, nasty dsp inputs); (b) near-miss text mutations of (a) that change a type/arity somewhere; (c) shipped sources and operator/constant mutations of them (scheduler on). Each case is compiled for VM and WASM and runs main + n dsp calls with the hook bounds assertions on (state/global/upvalue/closure/delay-size) and a logical instruction budget. Refuting: panic in any phase, hook assertion, step budget, WASM trap, invalid WASM module, WASM code generator refusing a type-checked program, dsp returning a word count other than declared. Rejection with diagnostics is fine. Non-trivial = at least one back end accepted and ran dsp; distinct = hash of the text + run parameters.",
+        "assumptions": ["bounds are observed at the hooked VM sites; WASM memory safety is wasmtime's sandbox, there the observable is trap/host panic/-1", "programs whose source-level meaning diverges (unguarded recursion) are not generated", "any number of dsp calls = n <= 64 in quick, 4096 for a subset in thorough"],
+        "floor": {"quick": 100, "thorough": 3000},
+        "case_timeout_s": 120,
+        "hang_is_violation": true,
+        "n_quick": args.cases(600, 40000),
+    })
+}
+
+pub fn run(args: &Args, out: &mut Out) {
+    let files = corpus_files(&args.repo);
+    let ncorpus = files.len();
+    let nmut = if args.thorough() { ncorpus * 6 } else { ncorpus / 3 };
+    let ngen = args.cases(420, 40000);
+    let total = ncorpus + nmut + ngen;
+    drive(
+        args,
+        out,
+        total,
+        |idx, rng| {
+            if idx < ncorpus + nmut {
+                let f = if idx < ncorpus { &files[idx] } else { &files[rng.below(ncorpus.max(1))] };
+                let src = std::fs::read_to_string(f).ok()?;
+                for bad in ["Sampler", "sampler", "midi", "loadwav", "gen_sampler"] {
+                    if src.contains(bad) {
+                        return None;
+                    }
+                }
+                let name = f.file_name()?.to_string_lossy().to_string();
+                if args.q(&format!("corpus:{name}")) {
+                    return None;
+                }
+                let (src, origin) = if idx < ncorpus {
+                    (src, format!("corpus:{name}"))
+                } else if rng.chance(1, 2) {
+                    (super::c01::mutate_source(&src, rng), format!("mutant:{name}"))
+                } else {
+                    (near_miss(&src, rng), format!("nearmiss:{name}"))
+                };
+                Some(Case {
+                    src,
+                    n: *rng.pick(&[4usize, 16, 64]),
+                    input_seed: rng.next(),
+                    finite_inputs: rng.chance(1, 2),
+                    prog: None,
+                    expect: None,
+                    scheduler: true,
+                    path: Some(f.to_string_lossy().to_string()),
+                    origin: Some(origin),
+                })
+            } else {
+                let finite = rng.chance(1, 2);
+                let mut c = gen_case(args, rng, finite);
+                if args.thorough() && rng.chance(1, 40) {
+                    c.n = 4096;
+                }
+                if rng.chance(1, 4) {
+                    // near-miss: the G-AST no longer describes the text
+                    c.src = near_miss(&c.src, rng);
+                    c.prog = None;
+                    c.origin = Some("nearmiss:generated".into());
+                }
+                Some(c)
+            }
+        },
+        exec,
+    );
+}
+
+pub fn replay(_args: &Args, out: &mut Out, case: &Value) {
+    replay_one::<Case>(out, case, exec);
+}
